@@ -161,13 +161,20 @@ def controlBits : Family := { name := "control_bits", gen := controlBitsGen, eva
 
 /-! ### control_ver: the breakpoint grid of inferPGVersion × states × wal levels -/
 
-def verCvs : List Nat := [0, 959, 960, 961, 1001, 1002, 1003, 1099, 1100, 1101, 1200, 1201, 1202, 1299, 1300, 1301, 1700, 2 ^ 32 - 1]
-def verCats : List Nat := [0, 201707211, 201809051, 201909211, 201909212, 202007200, 202007201, 202107180, 202107181, 202209060, 202209061, 202307070, 202307071, 2 ^ 32 - 1]
+def verCvs : List Nat := [0, 959, 960, 961, 1001, 1002, 1003, 1099, 1100, 1101, 1200, 1201, 1202, 1299, 1300, 1301, 1699, 1700, 1701, 1800, 2 ^ 32 - 1]
+def verCats : List Nat := [0, 201707211, 201809051, 201909211, 201909212, 201909213, 202007200, 202007201, 202107180, 202107181, 202209060,
+  202209061, 202307070, 202307071, 202307072, 202406280, 202406281, 202406282, 202506291, 2 ^ 32 - 1]
 
-/-- what a correct tool reports for the version / state / WAL-level names: defined where the pair of version numbers is
-one a released PostgreSQL 12–16 writes (`Spec.pgMajorOf`) and the image is well-formed -/
+/-- the witnesses of fixes/control/22 (pairs no release writes, which the bands of patch 10 named a release for) and
+PostgreSQL 17's own pair, ahead of the grid -/
+def verWitnesses : List (Nat × Nat) :=
+  [(1201, 0), (1300, 0), (1700, 202406281), (1300, 202406281), (1800, 202506291), (1300, 2 ^ 32 - 1), (1201, 201909211), (1300, 202307072)]
+
+/-- what a correct tool reports for the version / state / WAL-level names: defined where `Spec.majorReport` speaks (a pair
+a released PostgreSQL 12–17 writes → its major; control version ≥ 1201 with a catalog version of no release → 0) and the
+image is well-formed -/
 def specVer (c : Spec.ControlData) : String :=
-  match Spec.pgMajorOf c.pgControlVersion c.catalogVersionNo with
+  match Spec.majorReport c.pgControlVersion c.catalogVersionNo with
   | some major => if decide c.WF then s!"v={major};ss={Spec.stateName c.state};wl={Spec.walLevelNames.getD c.walLevel ""}" else "-"
   | none => "-"
 
@@ -176,25 +183,44 @@ def showVer : Option Model.ControlFile → String
   | some f => s!"v={f.pgVersionMajor};ss={f.stateString};wl={f.walLevel}"
 
 def controlVerGen (seed idx _size : Nat) : Case :=
+  let nw := verWitnesses.length
   let grid := verCvs.length * verCats.length
   let (cv, cat, st, wl) :=
-    if idx < grid then (verCvs.getD (idx / verCats.length) 0, verCats.getD (idx % verCats.length) 0, ((idx % 9 : Nat) : Int) - 1, idx % 4)
+    if idx < nw then ((verWitnesses.getD idx (0, 0)).1, (verWitnesses.getD idx (0, 0)).2, (6 : Int), 1)
+    else if idx < nw + grid then
+      let i := idx - nw
+      (verCvs.getD (i / verCats.length) 0, verCats.getD (i % verCats.length) 0, ((i % 9 : Nat) : Int) - 1, i % 4)
     else
       ((do
         let st ← Gen.genState
-        if ← Gen.prob 1 3 then
-          -- a pair a released PostgreSQL 12–16 writes, any state, a legal WAL level
+        match ← Gen.below 6 with
+        | 0 | 1 => do
+          -- a pair a released PostgreSQL 12–17 writes, any state, a legal WAL level
           let r ← Gen.oneOf Spec.pgReleases
           pure (r.2.1, r.2.2, st, ← Gen.below 3)
-        else
+        | 2 => do
+          -- a release's control version, a catalog version around a release's (development snapshots, minor damage)
+          let r ← Gen.oneOf Spec.pgReleases
+          let r2 ← Gen.oneOf Spec.pgReleases
+          let d ← Gen.oneOf [0, 1, 2, 10, 100000]
+          let cat := if ← Gen.bool then r2.2.2 + d else r2.2.2 - d
+          pure (r.2.1, cat, st, ← Gen.below 3)
+        | 3 => do
+          -- control version of PostgreSQL 12 or later, any catalog version
+          let cv ← (do if ← Gen.prob 1 2 then Gen.range 1201 1900 else Gen.range 1201 (2 ^ 32 - 1))
+          pure (cv, ← Gen.genU 32, st, ← Gen.below 3)
+        | _ => do
           let cv ← (do if ← Gen.prob 1 2 then Gen.range 900 1400 else Gen.genU 32)
-          let cat ← (do if ← Gen.prob 1 2 then Gen.range 201600000 202400000 else Gen.genU 32)
+          let cat ← (do if ← Gen.prob 1 2 then Gen.range 201600000 202600000 else Gen.genU 32)
           let wl ← Gen.oneOf [0, 1, 2, 3, 2 ^ 31, 2 ^ 32 - 1]
           pure (cv, cat, st, wl) : Gen _)).run' (Prng.ofSeed seed idx)
   let c := { Gen.typicalControl with pgControlVersion := cv, catalogVersionNo := cat, state := st, walLevel := wl }
   let file := Spec.encControl c 0 0
-  let major := Spec.pgMajorOf cv cat
-  { tags := ["nt", match major with | some m => s!"release={m}" | none => "release=none"],
+  let tag := match Spec.majorReport cv cat with
+    | some 0 => "release=unknown"
+    | some m => s!"release={m}"
+    | none => if cv ≥ 1201 then "release=mismatch" else "release=old"
+  { tags := ["nt", tag],
     model := showM showVer (Model.parseControlFile file), spec := specVer c, args := [hexRle file] }
 
 def controlVerEval (args : List String) : String :=
@@ -203,7 +229,7 @@ def controlVerEval (args : List String) : String :=
   | _ => "bad-args"
 
 def controlVer : Family :=
-  { name := "control_ver", gen := controlVerGen, eval := controlVerEval, fixed := verCvs.length * verCats.length }
+  { name := "control_ver", gen := controlVerGen, eval := controlVerEval, fixed := verWitnesses.length + verCvs.length * verCats.length }
 
 /-! ### control_read: ReadControlFile on a directory -/
 
